@@ -284,3 +284,40 @@ def inline_timeout():
     clk = ClockSim({"slowness": 1.0, "key": 0})
     with clk.installed():
         yield clk
+
+
+class RegridRefusal:
+    """Count-addressed refusal inside Mesh.redistributePoints: the n-th contour handed to
+    PsiContour.regrid(refine=False) is refused with the ValueError that the spacing
+    functions raise for settings they cannot honour (_checkMonotonic).  Which contour a
+    natural refusal hits depends on the equilibrium and the settings; the injected one
+    makes that depth a choice of the simulator.  The state left behind is the one a
+    natural refusal at the same contour leaves: earlier contours of the region moved and
+    not yet refined, this one and the later ones untouched."""
+
+    def __init__(self, n):
+        self.n = n
+        self.calls = 0
+        self.fired = 0
+
+    @contextlib.contextmanager
+    def installed(self):
+        from hypnotoad.core.equilibrium import PsiContour
+
+        real = PsiContour.regrid
+        inj = self
+
+        def regrid(self, *a, **kw):
+            if kw.get("refine", True) is False:
+                inj.calls += 1
+                if inj.calls == inj.n:
+                    inj.fired += 1
+                    raise ValueError("injected: combined spacing function is decreasing "
+                                     f"(contour {inj.calls} of this redistribution)")
+            return real(self, *a, **kw)
+
+        PsiContour.regrid = regrid
+        try:
+            yield self
+        finally:
+            PsiContour.regrid = real
